@@ -100,8 +100,49 @@ func ftOnce(c FtCase) error {
 			}
 		}(gi, plan)
 	}
+	// meanwhile the face table is listed, as faces/list, faces/query and the expiry sweep do
+	stopList := make(chan struct{})
+	var lwg sync.WaitGroup
+	listErr := make(chan error, 4)
+	for li := 0; li < 2; li++ {
+		lwg.Add(1)
+		go func(li int) {
+			defer lwg.Done()
+			<-start
+			for {
+				select {
+				case <-stopList:
+					return
+				default:
+				}
+				ids := map[uint64]bool{}
+				for _, f := range face.FaceTable.GetAll() {
+					if f == nil {
+						listErr <- fmt.Errorf("a listing of the face table contains a nil face")
+						return
+					}
+					if ids[f.FaceID()] {
+						listErr <- fmt.Errorf("a listing of the face table contains face %d twice", f.FaceID())
+						return
+					}
+					ids[f.FaceID()] = true
+				}
+				if li == 1 {
+					_ = face.FaceTable.GetByURI(defn.DecodeURIString("udp4://10.0.0.1:6363"))
+				}
+				runtime.Gosched()
+			}
+		}(li)
+	}
 	close(start)
 	wg.Wait()
+	close(stopList)
+	lwg.Wait()
+	select {
+	case err := <-listErr:
+		return err
+	default:
+	}
 
 	// every face got an id of its own
 	seen := map[uint64]*added{}
@@ -140,6 +181,19 @@ func ftOnce(c FtCase) error {
 	}
 	if n := face.VerifFaceTableLen(); n != len(all)-countDown(all, func(a *added) bool { return a.down }) {
 		return fmt.Errorf("face table holds %d faces, %d are alive", n, len(all)-countDown(all, func(a *added) bool { return a.down }))
+	}
+	// ... and a listing made now shows exactly the faces that are alive
+	listed := map[uint64]bool{}
+	for _, f := range face.FaceTable.GetAll() {
+		listed[f.FaceID()] = true
+	}
+	for _, a := range all {
+		if a.down && listed[a.id] {
+			return fmt.Errorf("face %d was torn down; a listing of the face table made after all operations finished still shows it", a.id)
+		}
+		if !a.down && !listed[a.id] {
+			return fmt.Errorf("face %d is alive; a listing of the face table made after all operations finished does not show it", a.id)
+		}
 	}
 	// RIB and FIB: exactly the routes of the surviving faces
 	gotRib := map[string]map[uint64]bool{}
